@@ -50,9 +50,12 @@ def make_material(spec):
 
 
 def make_fluid(spec):
+    # the table also holds a "default" entry and another material with different values: the tube material's own
+    # entry is the one that applies
     if spec["kind"] == "const":
-        return materials.ConstantFluidMaterial({"mat": fl(spec["h"])})
-    return materials.PiecewiseLinearFluidMaterial({"mat": (np.array(conv(spec["T"])), np.array(conv(spec["h"])))})
+        return materials.ConstantFluidMaterial({"default": 7.0 * fl(spec["h"]) + 1.0, "mat": fl(spec["h"]), "other": 0.5 * fl(spec["h"])})
+    T, hv = np.array(conv(spec["T"])), np.array(conv(spec["h"]))
+    return materials.PiecewiseLinearFluidMaterial({"default": (T, 3.0 * hv + 1.0), "mat": (T, hv), "other": (T, 0.25 * hv)})
 
 
 def run_config(cfg):
@@ -90,9 +93,17 @@ def run_config(cfg):
 
     thermal.FiniteDifferenceImplicitThermalProblem.solve_step = recording
     try:
-        solver = thermal.FiniteDifferenceImplicitThermalSolver(
-            substep=cfg.get("substep", 1), steady=cfg.get("steady", False),
-            rtol=cfg.get("rtol", 1.0e-6), atol=cfg.get("atol", 1.0e-2), miter=cfg.get("miter", 100))
+        opts = dict(substep=cfg.get("substep", 1), steady=cfg.get("steady", False),
+                    rtol=cfg.get("rtol", 1.0e-6), atol=cfg.get("atol", 1.0e-2), miter=cfg.get("miter", 100))
+        if cfg.get("via") == "pset":
+            # the same options through a parameter set, as the managers pass them
+            from srlife import solverparams
+            ps = solverparams.ParameterSet()
+            for k, v in opts.items():
+                ps[k] = v
+            solver = thermal.FiniteDifferenceImplicitThermalSolver(ps)
+        else:
+            solver = thermal.FiniteDifferenceImplicitThermalSolver(**opts)
         T0 = None
         if "T0_field" in cfg:
             arr = np.array(conv(cfg["T0_field"]))
